@@ -123,10 +123,18 @@ func check(c Case) *vk.Failure {
 	for i, fr := range c.Frames {
 		pbs[i] = fr.PB()
 	}
+	var prevMsg proto.Message
 	for i := range c.Frames {
 		f := pbs[i]
 		want := f.Wire()
-		msg := f.Message()
+		// the message object of the previous frame is used again when it has the right type (a caller that fills one
+		// message, asks for its Size, fills it again and marshals it): what was computed for the earlier content -
+		// Size was called on it below - must not be what Marshal writes now
+		msg := prevMsg
+		if msg == nil || vk.Mix(vk.Hash64(f.Payload)+uint64(i))&1 == 0 || !f.Into(msg) {
+			msg = f.Message()
+		}
+		prevMsg = msg
 		oddVersion(msg, vk.Hash64(f.Ver)+uint64(i)*977+uint64(len(f.Payload)))
 		var n int64
 		var err error
